@@ -64,11 +64,11 @@ def shards(tier, seed):
     q = tier == "quick"
     out = []
     for i in range(4):
-        out.append({"kind": "roundtrip", "seed": seed, "shard": i, "n": 40 if q else 600})
+        out.append({"kind": "roundtrip", "seed": seed, "shard": i, "n": 40 if q else 3000})
     for i in range(3):
-        out.append({"kind": "faults", "seed": seed, "shard": i, "n": 3 if q else 30})
+        out.append({"kind": "faults", "seed": seed, "shard": i, "n": 3 if q else 100})
     for i in range(2):
-        out.append({"kind": "corrupt", "seed": seed, "shard": i, "n": 4 if q else 40})
+        out.append({"kind": "corrupt", "seed": seed, "shard": i, "n": 4 if q else 200})
     nk = 6 if q else 16
     for i in range(nk):
         out.append({"kind": "kill", "seed": seed, "shard": i, "of": nk, "n": 1 if q else 0})
